@@ -143,7 +143,7 @@ pub fn model_text<'a>(model: &'a Model, text: &'a str) -> String {
     out
 }
 
-pub const SHAPES: [&str; 21] = [
+pub const SHAPES: [&str; 24] = [
     "a.E: boom",
     "a.E",
     "x.Unknown: msg",
@@ -165,6 +165,9 @@ pub const SHAPES: [&str; 21] = [
     "at x(y:1)",
     "\u{e9} \u{fc}n\u{ef}: \u{e7}\u{f6}d\u{e9}",
     "    at a.b.n(F.java:7)",
+    "Caused by: a.E",
+    "caused by: a.E: lower case",
+    "Caused by:  a.E: two blanks",
 ];
 pub const TEXT_TERMS: [(&str, &str, bool); 3] = [("LF", "\n", true), ("CRLF", "\r\n", true), ("LF-nofinal", "\n", false)];
 
@@ -293,7 +296,7 @@ pub fn run_c07(tier: Tier) -> i32 {
         prop: "C07",
         tier,
         level: "model_checking",
-        rule: format!("every text of 1..={} lines over 21 line shapes (throwables known/unknown with/without message, message containing ': ' and frame-like text, frames space/tab/trailing-blank indented that resolve to 2 / 1 / 0 frames, unknown method, unknown class, line outside every range, Native Method, Unknown Source, 'Caused by:' known/unknown/indented, '... n more', blank, 'at x(y:1)', non-ASCII) x 3 terminator policies (LF, CRLF, no final newline) x 3 mappings x {{mapper, cache}}; oracle = text model R12 with an independent line classifier. states = (text, mapping); distinct = distinct expected outputs; non-trivial = outputs that differ from the normalised input", depth),
+        rule: format!("every text of 1..={} lines over 24 line shapes (throwables known/unknown with/without message, message containing ': ' and frame-like text, frames space/tab/trailing-blank indented that resolve to 2 / 1 / 0 frames, unknown method, unknown class, line outside every range, Native Method, Unknown Source, 'Caused by:' known/unknown/indented, '... n more', blank, 'at x(y:1)', non-ASCII) x 3 terminator policies (LF, CRLF, no final newline) x 3 mappings x {{mapper, cache}}; oracle = text model R12 with an independent line classifier. states = (text, mapping); distinct = distinct expected outputs; non-trivial = outputs that differ from the normalised input", depth),
         bounds: json!({"lines": depth, "shapes": SHAPES, "terminators": ["LF","CRLF","LF without final newline"], "mappings": mappings().iter().map(|(l, m)| json!({"label":l,"text":esc(&print_file(m, Term::Lf))})).collect::<Vec<_>>()}),
         assumptions: vec!["lines are split like str::lines (LF, CR dropped only directly before LF)".into()],
         trusted_base: vec!["rustc/std (str::trim, str::parse::<usize>)".into(), "text model + line classifier in pgmc/src/props/e3.rs".into(), "reference model pgmc/src/model.rs".into()],
